@@ -42,6 +42,12 @@ THEMES = {
 }
 
 
+# A word explored from a seed that opens an attribute value ends inside the tag, and a tag cut off by EOF emits no
+# token: the value built so far would never be compared.  Such words are therefore ALSO judged with the shortest
+# suffix that completes the tag.
+CLOSERS = {'<a b="': '">', "<a b='": "'>", "<a b=": " >"}
+
+
 def text_of(theme, seed, word):
     letters = THEMES[theme][0]
     return seed + "".join(letters[i] for i in word)
@@ -84,6 +90,13 @@ def step(ctx, word):
         v = engine.Violation(H, {"theme": theme, "seed": seed, "state": cfg[0], "last": cfg[1], "cdata": cfg[2]},
                              text, exp, impl, "token sequence differs from the WHATWG tokenization",
                              diff_class(impl, exp, cfg))
+    if v is None and seed in CLOSERS:
+        closed = text + CLOSERS[seed]
+        impl2, exp2 = compare(closed, cfg)
+        if impl2 != exp2:
+            v = engine.Violation(H, {"theme": theme, "seed": seed, "state": cfg[0], "last": cfg[1], "cdata": cfg[2]},
+                                 closed, exp2, impl2, "token sequence differs from the WHATWG tokenization",
+                                 diff_class(impl2, exp2, cfg))
     ikey = drive.impl_suspended_state(text, *cfg)
     _, rt = ref.tokenize(text, state=cfg[0], last_start_tag=cfg[1], cdata=cfg[2], final=False)
     rkey = rt.snapshot()
